@@ -295,5 +295,8 @@ func RunC08(seed int64, tier, outDir string) (*emit.Summary, error) {
 		"seeded samples of the full field grid of every kind (counts in {absent,0..3} near-complete or uniform, extreme/negative values, every condition/reason/phase/strategy value); " +
 		"Deployment/DaemonSet/StatefulSet points with int32 values are also given to the real kubectl StatusViewers. non-trivial = all; distinct = distinct Coq case terms"
 	sum.Samples = []any{rc.sh.files[0].Text[0], rc.sh.files[1].Text[7], rc.sh.files[len(rc.sh.files)-1].Text[3]}
+	if err := runReaders(r, "C08", tier, outDir, sum); err != nil {
+		return nil, err
+	}
 	return sum, nil
 }
